@@ -39,6 +39,11 @@ class Proc(FakeProc):
     def kill(self):
         self.killed = True
 
+    def join(self):
+        # a live process that was told to stop (WorkerShutdown / shm shutdown) exits cleanly
+        if self.exitcode is None:
+            self.exitcode = 0
+
 
 def controller_inbox():
     out = []
@@ -56,13 +61,13 @@ class Health(Harness):
     outside = ["real processes: kill -9, zombies, leftover /dev/shm segments, signal/atexit behaviour, wall-clock bounds"]
 
     def shards(self, tier):
-        return [{"dead": list(d)} for d in itertools.product([0, 1], repeat=4)]
+        return [{"dead": list(d), "terminating": t} for d in itertools.product([0, 1], repeat=4) for t in (False, True)]
 
     def budget(self, tier):
         return 60.0
 
     def bounds(self, tier):
-        return {"children": "2 workers + shm server + data server", "exit_codes": "unbounded symbolic integers"}
+        return {"children": "2 workers + shm server + data server", "exit_codes": "unbounded symbolic integers (0 included)", "executor": "running / already terminating"}
 
     def functions(self):
         return [executor_mod.Executor.healthcheck]
@@ -77,21 +82,30 @@ class Health(Harness):
         w1 = WorkerId("h0", "w1")
         ex.workers = {W0: Proc(codes[0]), w1: Proc(codes[1])}
         ex.shm_process, ex.data_server = Proc(codes[2]), Proc(codes[3])
+        ex.terminating = params["terminating"]
         raised = False
         try:
             ex.healthcheck()
         except ValueError:
             raised = True
-        should = False
+        # while the executor runs, a child that is gone -- whatever its exit code: a task body may call sys.exit(0) -- is a failure;
+        # once the executor is shutting down, children that exited cleanly are what is expected
+        must = False
+        may = False
         for c in codes:
-            if c is not None and c != 0:
-                should = True
+            if c is not None:
+                if c != 0:
+                    may = True
+                    if not params["terminating"]:
+                        must = True
+                elif not params["terminating"]:
+                    must = True
         ch.note("nontrivial", any(c is not None for c in codes))
-        ch.note("fingerprint", (tuple(params["dead"]), should))
-        if should and not raised:
-            raise Violation("dead-child-not-detected", f"children with exit codes {params['dead']} -> healthcheck returned normally")
-        if raised and not should:
-            raise Violation("healthy-children-reported-dead")
+        ch.note("fingerprint", (tuple(params["dead"]), params["terminating"], must, may))
+        if must and not raised:
+            raise Violation("dead-child-not-detected", f"children exited {params['dead']} (an exit code may be 0) while the executor is running -> healthcheck returned normally")
+        if raised and not (must or may):
+            raise Violation("healthy-children-reported-dead", f"terminating={params['terminating']}")
 
 
 class ExecLoop(Harness):
@@ -120,7 +134,7 @@ class ExecLoop(Harness):
             _shm_calls.clear()
             CLOCK.now = 1_000_000_000_000
             ex = make_executor()
-            code = [None, 1, -9, 3][ch.pick(4, "code")] if params["dead"] else None
+            code = [None, 1, -9, 3, 0][ch.pick(5, "code")] if params["dead"] else None
             if params["dead"] and code is None:
                 ch.assume(False)
             procs = {"worker": Proc(code if params["dead"] == 1 else None), "shm": Proc(code if params["dead"] == 2 else None), "data": Proc(code if params["dead"] == 3 else None)}
